@@ -645,3 +645,45 @@ def c04_construct(R):
             return [("value", z3.BoolVal(isinstance(got, list) and len(got) == n and all(same_obj(got[i], rows[i]) for i in range(n))))]
 
         verify(R, "C04.construct", fn, runm, label=mt)
+
+
+
+@family("C04.affix", props=["C04", "C05"], functions=["nsl.passes.ComputeTypes::ComputeTypeVisitor._ProcessExpression", "nsl.passes.LowerToIR::LowerToIRVisitor.v_AffixExpression", "nsl.VM::ExecutionContext.__Execute"],
+        assumptions=["vector and matrix types enumerated completely; both operators, prefix and postfix"])
+def c04_affix(R):
+    """`++` / `--` on a vector or matrix variable: rejected, or every component is incremented / decremented -- never a run-time failure of an
+    accepted program."""
+    fn = "nsl.passes.LowerToIR::LowerToIRVisitor.v_AffixExpression"
+    for tname, mk in [(f"{k}{n}", (lambda ctx, k=k, n=n: symvec(ctx, "v", n, "f" if k == "float" else "i"))) for k in ("float", "int") for n in (2, 3, 4)] + \
+                     [(f"float{n}x{n}", (lambda ctx, n=n: symmat(ctx, "v", n))) for n in (3, 4)]:
+        for form, delta in (("++v", 1), ("v++", 1), ("--v", -1), ("v--", -1)):
+            src = f"export function f({tname} v) -> {tname} {{ {form}; return v; }}"
+            r, exc = program(src)
+            label = f"{tname},{form}"
+            if r is None:
+                R.ok(f"C04.affix[{label}]", fn, detail="rejected")
+                continue
+
+            def run(ctx, r=r, mk=mk, delta=delta):
+                v = mk(ctx)
+                import copy
+                got, _ = invoke(r, "f", v=copy.deepcopy(v))
+
+                def want(x):
+                    return [want(y) for y in x] if isinstance(x, list) else (x + delta)
+                return [("value", vm_c.veq(got, want(v)) if not isinstance(v[0], list) else z3.And(*[vm_c.veq(g, w) for g, w in zip(got, want(v))]) if isinstance(got, list) and len(got) == len(v) else z3.BoolVal(False))]
+
+            verify(R, "C04.affix", fn, run, lambda m, c, src=src: script("""
+                import io, contextlib
+                from nsl import Compiler, LinearIR, VM
+                src = {{src}}
+                with contextlib.redirect_stdout(io.StringIO()):
+                    r = Compiler.Compiler().Compile(src)
+                l = LinearIR.Linker(); l.AddModule(r.IRModule)
+                n = int(src.split('(')[1].split()[0][-1])
+                v = [[float(i + j) for j in range(n)] for i in range(n)] if 'x' in src.split('(')[1].split()[0] else [1.0, 2.0, 3.0, 4.0][:n]
+                try:
+                    print(src, '->', VM.VirtualMachine(l.Link()).Invoke('f', v=v))
+                except BaseException as e:
+                    print(src, 'is accepted, the VM raises', type(e).__name__, e); print('REPLAY-CONFIRMED')
+                """, src=src), label=label)
